@@ -57,7 +57,7 @@ _claim('C06',
        "resolved call graph + argument binding (keyword, positional, **, functools.partial, starmap tuples) on evaluated paths")
 _claim('C08',
        "C08.R1 no draw from the inherited process-global RNG is reachable in a pool worker under the arguments bound at "
-       "its dispatch site, and bound noise is a per-member column of a parent-side matrix; C08.R2 member algebra "
+       "its dispatch site, and bound noise is a per-member column of a parent-side matrix with one entry per sample along the other axis; C08.R2 member algebra "
        "(single / flip with the same draw and identical options) and per-IMF mean over members; C08.R3 zero noise level "
        "folds every member to sift(X, same options), every return path delivers the member mean; the worker does not modify its arguments; C08.R4 the noise update of the complete ensemble keeps the member axis for every ensemble size.",
        "statistical independence of the realisations beyond 'distinct draws'.",
@@ -66,14 +66,14 @@ _claim('C08',
 _claim('C12',
        "C12.R1 the boundary list is decoded to [0] ++ wraps ++ [N] on every feasible path (affine forms over N, wrap "
        "positions in [1, N-1] strictly increasing), consumed as half-open slices B[j]:B[j+1], every slice non-empty; "
-       "C12.R2 wraps unfiltered, strict threshold; C12.R3 per-column label counter; C12.R4 wrap-free early exit; C12.R5 the good-cycle filter is the documented total predicate; C12.R6 ensure_2d contract of the phase input.",
+       "C12.R2 wraps unfiltered, strict threshold, default threshold 1.5 pi in the routine and in the container; C12.R3 per-column label counter; C12.R4 wrap-free early exit; C12.R5 the good-cycle filter is the documented total predicate; C12.R6 ensure_2d contract of the phase input.",
        "nothing numerical is involved; the behaviour of np.where/np.diff/np.r_ is trusted.",
        "path-sensitive abstract interpretation + affine index ranges")
 _claim('C13',
        "C13.R1 each criterion of is_good in boolean/comparison normal form vs. the documented one; C13.R2 a segment is "
        "labelled only under all(is_good(that slice, caller's phase_edge)) after the mask veto on the same slice, "
        "return_good=False substitutes an all-true vector; C13.R3 the container forwards its tolerance to the stored "
-       "criteria function; C13.R4 the slice-cache boundaries the container's flag is computed over.",
+       "criteria function and shares its default with is_good and get_cycle_vector; C13.R4 the slice-cache boundaries the container's flag is computed over.",
        "that the slice looked at is the whole wrap-to-wrap segment is C12.R1.",
        "boolean normal forms + path conditions of the labelling store + argument binding")
 _claim('C18',
@@ -138,14 +138,14 @@ _claim('C14',
        "C14.R1 reducer argument is vals[where(label == i)] stored in slot i over range(max+1); C14.R2 NaN-initialised "
        "projection written through the same lookup; C14.R3 phase_align uses one index set for phase and value, the bin "
        "centres of define_hist_bins(0, 2pi, npoints), column = cycle; C14.R4 the bin loop of bin_by_phase covers every "
-       "allocated row (digitize classes for nbins = 2,3,5); the interpolant gets the requested kind and extrapolates; C14.R5 get_cycle_stat is the support routine on the object's own labels, out='samples' its projection; L1.",
+       "allocated row (digitize classes for nbins = 2,3,5) for default and supplied edges, weighted and unweighted; each bin is filled with the mean along the sample axis of x[digitize(ip, edges) == i], the default edges are define_hist_bins(0, 2pi, nbins), an iteration skips only an empty bin, the result is nbins x x.shape[1:]; the cycles aligned are the supplied ones or the unmasked all-cycles labelling and a cycle is skipped only when another was requested or it has no samples; the interpolant gets the requested kind and extrapolates; C14.R5 get_cycle_stat is the support routine on the object's own labels, out='samples' its projection; L1.",
        "interpolation error for non-linear profiles.",
        "term decoding with inlined label lookups + digitize index classes")
 _claim('C15',
        "C15.R1 comparator table by folding the parser's path conditions for 6 operators x 3 literal prefixes; C15.R2 "
        "conjunction with the metric on the left; C15.R3 subset / chain counters; C15.R4 every metric store is guarded or "
        "of cycle-level provenance; C15.R5 cache precondition (all-cycles unmasked vector, gap-free by C12.R1) and the "
-       "cache's own boundaries; metric values are not modified in place; C15.R6 recomputation on every pick; C15.R7 the label route and the slice-cache route delimit the augmented cycle identically (sibling agreement by substitution); C15.R8 possibly-None extents never index the values unguarded.",
+       "cache's own boundaries; metric values are not modified in place; C15.R6 recomputation on every pick; C15.R7 the label route and the slice-cache route delimit the augmented cycle identically (sibling agreement by substitution); C15.R8 possibly-None extents never index the values unguarded; C15.R9 per mode x cache state the stored metric is the matching support routine on (vals, own labels or the cache known to be present, func), chain metrics are the per-chain statistic on the own vectors projected onto cycles with NaN -> -1 before an integer cast, chain_ind / chain_position number chains and members from 0; C15.R10 every attribute a method reads is bound on every constructor path before the first method call needing it.",
        "equality of arbitrary user functions under cache on/off; the full operation-history quantifier beyond 'each "
        "operation preserves the store invariant'.",
        "partial evaluation of path conditions on concrete strings + counter relations + C12 cover rule")
@@ -160,9 +160,9 @@ _claim('C16',
 _claim('C17',
        "C17.R1 the occurrence lookup returns index sets in the row space of its argument (a sorted copy has a different "
        "index space); C17.R2 provenance and range guard of every final assignment, x/y index lists equal by "
-       "construction, K and the distance bound reach the query; C17.R3 one claimant per candidate and neighbour column (argmin, not an equality test on the minimum).",
+       "construction, K and the distance bound reach the query; C17.R1 also interprets the return term of _unique_inds on every weak ordering of up to 4 (thorough 5) values: the distinct values, each with exactly its positions; C17.R3 one claimant per candidate and neighbour column (one position among the occurrences, not an equality test on the minimum); C17.R4 a claimant is marked only if its candidate is a member of the column's candidates not matched in an earlier column, that record is extended in every column, the assignment vector is integer typed.",
        "global injectivity of the greedy column-by-column assignment; K=1 (scipy returns 1-D arrays).",
-       "index-space typing + path conditions of the assignment stores")
+       "index-space typing + path conditions of the assignment stores + exhaustive order-pattern interpretation of the lookup routine")
 _claim('C19',
        "C19.R1 the three ensure_* routines folded on 11 representative shapes against their documented contract, every returned array is its own input through layout-only operations; "
        "C19.R2 canonicalisation precedes every other use of the signal; C19.R3 flow-sensitive interprocedural "
